@@ -18,6 +18,18 @@ include order without the #include lines):
   (4) a missing include and a cyclic include (self, A<->B, longer rings, in an included file) make
       prophyc fail, for prophy text and for isar (<xi:include href=.../>); positive controls compile.
 The same is done for isar: the xml of frontends.to_isar cut into the same files.
+
+Besides the part<N> file names and the four split styles, every schema is also split
+  * into files named after a type they define (rename_files: Point.prophy defines Point and the includer has a
+    field of type Point; every 5th time two included files carry each other's name), and
+  * into a project / library layout (arrange): main file in the root, proj/ or app/src/, the other files as
+    groups of siblings in <library root>[/<sub-directory>], included through the library root
+    ("proto/msg.prophy"), through the group directory or by relative paths, with 2-4 -I directories in
+    descending, shuffled or ascending command-line order (one sometimes given twice), and with decoys:
+    same-named files of other content (decoy_text: other constants, enumerators and layouts) at every place
+    that has a lower precedence under the search rule "directory of the including file first, then the -I
+    directories in command-line order" (resolve). A build that picks a decoy, or that does not find a sibling
+    of a file it reached through -I, differs from the single file in (1)/(2) or fails.
 """
 import json
 import os
@@ -245,9 +257,9 @@ def prophy_case(t, sp):
             "single": single, "single_name": "single.prophy", "patch": None, "uses": uses_name}
 
 
-def isar_case(t, sp, style, rng):
+def isar_case(t, sp, style, rng, bytes_via="patch"):
     """the xml of to_isar(t) cut into the files of the split `sp` (same placement, same includes)"""
-    xml, patch = F.to_isar(t, style=style, rng=rng)
+    xml, patch = F.to_isar(t, style=style, rng=rng, bytes_via=bytes_via)
     chunks = {m.group(2): m.group(0) for m in _XML_CHUNK.finditer(xml)}
     names = [d[1] for d in S.decls(t)]
     if sorted(chunks) != sorted(names):
@@ -262,6 +274,238 @@ def isar_case(t, sp, style, rng):
         files[x(p)] = '<?xml version="1.0" encoding="utf-8"?>\n<x xmlns:xi="http://www.w3.org/2001/XInclude">\n%s%s</x>\n' % (incs, body)
     return {"lang": "isar", "files": files, "main": x(sp["main"]), "include_dirs": sp["include_dirs"],
             "order": [x(p) for p in sp["order"]], "single": xml, "single_name": "single.xml", "patch": patch, "uses": None}
+
+
+# PENDING-FINDING (unchanged tree): prophyc.patch.patch() looks up every top-level node of a file by name, Include
+# nodes too. An isar include is named by its href without the extension, so with `--patch` a rule for struct X aborts
+# the compilation of every file that holds <xi:include href="X.xml"/> ("Can change field only in struct: X ..."),
+# while the single file compiles. Exactly this input class — isar, a patch rule whose node name equals the name of an
+# Include node — is left out of the generated cases while PENDING_EXCLUDE is set: the xml is printed again with
+# bytes_via="direct" (no `type .. byte` rules); if rules for such a name remain, the isar twin of the split is skipped.
+PENDING_EXCLUDE = True
+
+
+def patch_include_clash(case):
+    """names that are both the subject of a patch rule and the name of an isar Include node of the case"""
+    if not case.get("patch"):
+        return []
+    subjects = set(line.split()[0] for line in case["patch"].split("\n") if line.strip())
+    hrefs = set(os.path.splitext(h)[0] for text in case["files"].values() for h in re.findall(r'<xi:include href="([^"]+)"/>', text))
+    return sorted(subjects & hrefs)
+
+
+# ------------------------------------------------------------------------------------------
+# file naming and directory arrangements
+# ------------------------------------------------------------------------------------------
+# The search rule the arrangements rely on (the one a C preprocessor has, and the one prophyc documents for -I):
+# the name in an include is looked up first in the directory of the file that contains the include (the directory
+# in which that file was found), then in the -I directories in command-line order; the first hit wins.
+
+def resolve(ref, includer, include_dirs, existing):
+    """path (key of `existing`) the include `ref` written in file `includer` denotes, or None"""
+    for base in [os.path.dirname(includer)] + [d if d != "." else "" for d in include_dirs]:
+        cand = os.path.normpath(os.path.join(base, ref))
+        if cand in existing:
+            return cand
+    return None
+
+
+def include_graph(sp):
+    """{path: [(ref as written, path of the file it denotes)]} of a split without decoys"""
+    return {p: [(ref, resolve(ref, p, sp["include_dirs"], sp["files"])) for ref in _INC_RE.findall(text)]
+            for p, text in sp["files"].items()}
+
+
+def rename_files(sp, t, rng, naming):
+    """the same split with other file names (directories and include structure unchanged):
+    'typed'    every file is named after a declaration it holds — for an included file one that the includers use
+               (the one-type-per-file convention: Point.prophy defines Point, the includer has a field of type Point);
+    'foreign'  as typed, but one included file carries the name of a declaration that lives in another file
+               (types.prophy-like misnomers: the stem is a name of the schema, but not one the file defines)"""
+    ds = S.decls(t)
+    deps = {d[1]: F.decl_deps(d) for d in ds}
+    where = sp["where"]
+    used_elsewhere = set(x for n, xs in deps.items() for x in xs if where[x] != where[n])
+    new = {}
+    for p in sp["order"]:
+        mine = [d[1] for d in ds if where[d[1]] == p]
+        pref = [n for n in mine if n in used_elsewhere] or mine
+        new[p] = rng.choice(pref)
+    if naming == "foreign":
+        # swap the names of two included files, so that both carry a name of the schema they do not define
+        inc = [p for p in sp["order"] if p != sp["main"]]
+        if len(inc) >= 2:
+            a, b = rng.sample(inc, 2)
+            new[a], new[b] = new[b], new[a]
+    ext = os.path.splitext(sp["main"])[1]
+
+    def np(p):
+        return os.path.join(os.path.dirname(p), new[p] + ext)
+    by_base = {os.path.basename(p): new[p] + ext for p in sp["order"]}
+
+    def fix(m):
+        ref = m.group(1)
+        return '#include "%s"\n' % os.path.join(os.path.dirname(ref), by_base[os.path.basename(ref)])
+    return {"files": {np(p): _INC_RE.sub(fix, text) for p, text in sp["files"].items()}, "main": np(sp["main"]),
+            "include_dirs": list(sp["include_dirs"]), "order": [np(p) for p in sp["order"]],
+            "where": {n: np(p) for n, p in where.items()}}
+
+
+LIB_ROOTS = ["site", "common", "vendor", "base", "zlib", "api"]
+LIB_SUBS = ["", "proto", "proto/v2", "defs"]
+MAIN_DIRS = ["", "proj", "app/src"]
+
+
+def arrange(sp, rng, variant):
+    """A flat split (every file in one directory, bare include names) moved into a project / library layout:
+
+      * the main file in the root, in proj/ or in app/src/;
+      * the other files in 1-3 groups, each group a directory <library root>[/<sub-directory>]; files of a group
+        include each other as siblings (bare name); a file of another directory is included through an -I directory
+        (the library root, so that the include reads "proto/msg.prophy", or the group's own directory) or, less
+        often, by a path relative to the includer;
+      * 2-4 -I directories, in descending alphabetical, shuffled or ascending command-line order (by `variant`),
+        sometimes with the first one repeated at the end;
+      * decoys: files with the name of an included file but other content (see decoy_text), put where the search rule
+        must NOT find them first: in -I directories after the one that holds the real file, in -I directories and next
+        to the main file for names that are included as siblings. Every decoy is validated with `resolve`: a
+        decoy that the rule would pick for some include of some file is dropped.
+
+    -> split dict as frontends.split_files, plus "decoys": {decoy path: path of the file it imitates}."""
+    main = sp["main"]
+    others = [p for p in sp["order"] if p != main]
+    graph = include_graph(sp)
+    one_group = (variant // 4) % 2 == 0
+    roots = rng.sample(LIB_ROOTS, rng.randint(2, 3))
+    order_mode = ("descending", "shuffled", "descending", "ascending")[variant % 4]
+    if order_mode == "shuffled":
+        rng.shuffle(roots)
+    else:
+        roots.sort(reverse=order_mode == "descending")
+    ngroups = 1 if one_group else rng.randint(1, min(3, max(1, len(others))))
+    groups = []
+    for g in range(ngroups):
+        root = roots[g % len(roots)] if g else rng.choice(roots[:-1] or roots)   # not the last -I: room for decoys behind it
+        sub = rng.choice(LIB_SUBS[1:]) if (one_group and g == 0) else rng.choice(LIB_SUBS)
+        d = os.path.join(root, sub) if sub else root
+        anchor = root if (g == 0 or rng.random() < 0.7) else d
+        if (d, anchor) not in groups:
+            groups.append((d, anchor))
+    dirs, anchor_of = {main: MAIN_DIRS[(variant // 8) % len(MAIN_DIRS)]}, {}
+    for k, p in enumerate(others):
+        d, anchor = groups[rng.randrange(len(groups))]
+        dirs[p], anchor_of[p] = d, anchor
+    include_dirs = list(roots)
+    for d, anchor in groups:
+        if anchor not in include_dirs:
+            include_dirs.insert(rng.randint(0, len(include_dirs)), anchor)
+    if variant % 5 == 0:
+        include_dirs.append(include_dirs[0])
+
+    def np(p):
+        return os.path.normpath(os.path.join(dirs[p], os.path.basename(p)))
+    refs = {}
+    for p in sp["order"]:
+        for _, q in graph[p]:
+            if dirs[p] == dirs[q]:
+                refs[p, q] = os.path.basename(q)
+            elif rng.random() < 0.8:
+                refs[p, q] = os.path.relpath(np(q), anchor_of[q])
+            else:
+                refs[p, q] = os.path.relpath(np(q), dirs[p] or ".")
+    files = {}
+    for p in sp["order"]:
+        it = iter(graph[p])
+        files[np(p)] = _INC_RE.sub(lambda m: '#include "%s"\n' % refs[p, next(it)[1]], sp["files"][p])
+    true_of = {np(p): p for p in sp["order"]}
+    # decoy candidates
+    cands = []
+    for (p, q), ref in sorted(refs.items()):
+        spots = [d for d in include_dirs]
+        if dirs[p] == dirs[q]:
+            spots.append(dirs[main] or ".")
+            spots.append(os.path.dirname(dirs[q]) or ".")
+        for d in spots:
+            c = os.path.normpath(os.path.join(d, ref))
+            if not c.startswith("..") and c not in files and (c, np(q)) not in cands:
+                cands.append((c, np(q)))
+    decoys = {c: q for c, q in cands if rng.random() < 0.85}
+    while True:
+        existing = set(files) | set(decoys)
+        hit = set()
+        for p in sp["order"]:
+            for _, q in graph[p]:
+                r = resolve(refs[p, q], np(p), include_dirs, existing)
+                if r != np(q):
+                    if r not in decoys:
+                        raise AssertionError("arrange: %s in %s resolves to %s" % (refs[p, q], np(p), r))
+                    hit.add(r)
+        if not hit:
+            break
+        for r in hit:
+            del decoys[r]
+    return {"files": files, "main": np(main), "include_dirs": include_dirs, "order": [np(p) for p in sp["order"]],
+            "where": {n: np(p) for n, p in sp["where"].items()}, "decoys": decoys, "i_order": order_mode}
+
+
+def decoy_text(text, lang):
+    """the same declarations with other values and layouts: constants + 3, enumerators + 1, a leading u64 member in
+    every struct, one more u64 arm in every union"""
+    if lang == "prophy":
+        text = re.sub(r"^const (\w+) = (\d+);", lambda m: "const %s = %d;" % (m.group(1), int(m.group(2)) + 3), text, flags=re.M)
+        text = re.sub(r"^(struct \w+\n\{\n)", r"\1    u64 decoy_;\n", text, flags=re.M)
+        text = re.sub(r"^(union \w+\n\{\n)", r"\1    3999999999: u64 decoy_;\n", text, flags=re.M)
+        return re.sub(r"^(    \w+ = )(\d+)(,?)$",
+                      lambda m: m.group(1) + str(int(m.group(2)) + (int(m.group(2)) < 4000000000)) + m.group(3), text, flags=re.M)
+    text = re.sub(r'^(    <(?:struct|message) name="\w+">\n)', r'\1        <member name="decoy_" type="u64"/>\n', text, flags=re.M)
+    text = re.sub(r'^(    <union name="\w+">\n)', r'\1        <member type="u64" name="decoy_" discriminatorValue="3999999999"/>\n',
+                  text, flags=re.M)
+    return re.sub(r'(<enum-member name="\w+" value=")(\d+)"',
+                  lambda m: m.group(1) + str(int(m.group(2)) + (int(m.group(2)) < 4000000000)) + '"', text)
+
+
+def add_decoys(case, sp):
+    """decoy files of an arranged split, imitating the final texts of the case's files"""
+    ext = os.path.splitext(case["main"])[1]
+
+    def x(p):
+        return os.path.splitext(p)[0] + ext
+    case["decoys"] = {x(c): decoy_text(case["files"][x(q)], case["lang"]) for c, q in sorted(sp.get("decoys", {}).items())}
+    case["i_order"] = sp.get("i_order")
+
+
+def features(case):
+    """which of the directory / naming situations a case holds (for the coverage record)"""
+    out = set()
+    ext = os.path.splitext(case["main"])[1]
+    rx = _INC_RE if ext == ".prophy" else re.compile(r'<xi:include href="([^"]+)"/>')
+    existing = set(case["files"])
+    g = {p: [(ref, resolve(ref, p, case["include_dirs"], existing)) for ref in rx.findall(text)] for p, text in case["files"].items()}
+    dirs = [d if d != "." else "" for d in case["include_dirs"]]
+    for p, incs in g.items():
+        for ref, q in incs:
+            if q is None:
+                continue
+            through_i = os.path.normpath(os.path.join(os.path.dirname(p), ref)) != q
+            if through_i:
+                out.add("include found through -I")
+                if os.path.dirname(ref):
+                    out.add("include found through -I in a sub-directory of it")
+                if any(os.path.dirname(q2) == os.path.dirname(q) and not os.path.dirname(r2) for r2, q2 in g[q]):
+                    out.add("file found through -I includes a sibling by bare name")
+                holders = [d for d in dirs if os.path.normpath(os.path.join(d, ref)) in existing or
+                           os.path.normpath(os.path.join(d, ref)) in case.get("decoys", {})]
+                if len(set(holders)) > 1:
+                    out.add("included name present in several -I directories")
+                    if holders != sorted(holders):
+                        out.add("included name present in several -I directories given in non-alphabetical order")
+            if stem(q) in re.findall(r"\w+", rx.sub("", case["files"][p])):
+                out.add("stem of an included file is a name the includer uses")
+    if case.get("decoys"):
+        out.add("decoy files of lower precedence")
+    if len(dirs) != len(set(dirs)):
+        out.add("-I directory given twice")
+    return out
 
 
 # ------------------------------------------------------------------------------------------
@@ -313,6 +557,9 @@ def run_split_case(case, root, fast=False):
     lang_args = ["--isar"] if case["lang"] == "isar" else []
     os.makedirs(root, exist_ok=True)
     F.materialise(case["files"], root)
+    F.materialise(case.get("decoys") or {}, root)
+    for d in case["include_dirs"]:
+        os.makedirs(os.path.join(root, d), exist_ok=True)
     F.write_text(os.path.join(root, case["single_name"]), case["single"])
     for d in ("gen_single", "gen_all", "gen_cwd", "gen_sep", "elsewhere"):
         os.makedirs(os.path.join(root, d), exist_ok=True)
@@ -551,11 +798,13 @@ def load_corpus():
 
 
 def case_dict(case, kind, detail, cwd, cmd=""):
-    return {"kind": kind, "style": case.get("style"), "files": case["files"], "main": case["main"],
+    return {"kind": kind, "style": case.get("style"), "naming": case.get("naming", "part"), "files": case["files"],
+            "decoys": case.get("decoys") or {}, "main": case["main"],
             "include_dirs": case["include_dirs"], "cwd": cwd, "detail": detail, "command": cmd,
             "mode": "split", "lang": case["lang"], "label": case.get("label"),
-            "replay": {k: case.get(k) for k in ("lang", "files", "main", "include_dirs", "order", "single", "single_name",
-                                                 "patch", "uses", "schema", "values", "root", "absolute", "style", "label")}}
+            "replay": {k: case.get(k) for k in ("lang", "files", "decoys", "main", "include_dirs", "order", "single", "single_name",
+                                                 "patch", "uses", "schema", "values", "root", "absolute", "style", "naming",
+                                                 "label")}}
 
 
 def error_case_dict(ec, kind, detail):
@@ -610,29 +859,58 @@ def build_cases(seed, n_schemas):
             schemas.append(t)
     cases = []
     skipped = {}
+
+    def emit(i, t, sp, base, isar):
+        if len(sp["files"]) < 2:
+            skipped["split into one file"] = skipped.get("split into one file", 0) + 1
+            return
+        tail = "%s:%s:%d" % (base["style"], base["naming"], len(sp["files"]))
+        c = prophy_case(t, sp)
+        c.update(base)
+        add_decoys(c, sp)
+        c["label"] = "prophy:%d:%s" % (i, tail)
+        cases.append(c)
+        if isar:
+            try:
+                c = isar_case(t, sp, "inline" if i % 2 else "direct", random.Random(i))
+                if PENDING_EXCLUDE and patch_include_clash(c):
+                    c = isar_case(t, sp, "inline" if i % 2 else "direct", random.Random(i), bytes_via="direct")
+                    if patch_include_clash(c):
+                        key = "PENDING-FINDING: isar patch rule for a name that is also the name of an include"
+                        skipped[key] = skipped.get(key, 0) + 1
+                        return
+            except F.NotExpressible as e:
+                key = "isar: " + e.reason.split(" ", 1)[-1][:50]
+                skipped[key] = skipped.get(key, 0) + 1
+                return
+            c.update(base)
+            add_decoys(c, sp)
+            c["label"] = "isar:%d:%s" % (i, tail)
+            cases.append(c)
+
     for i, t in enumerate(schemas):
         values = S.gen_values(random.Random(seed * 7 + i), t, 3)
         for si, style in enumerate(F.SPLIT_STYLES):
             nfiles = 2 + (i + si) % 5
             sp = F.split_files(t, random.Random(seed * 31 + i * 4 + si), nfiles, style)
-            if len(sp["files"]) < 2:
-                skipped["split into one file"] = skipped.get("split into one file", 0) + 1
-                continue
-            base = {"schema": t, "values": values, "root": t[1], "style": style, "absolute": (i + si) % 3 == 0}
-            c = prophy_case(t, sp)
-            c.update(base)
-            c["label"] = "prophy:%d:%s:%d" % (i, style, len(sp["files"]))
-            cases.append(c)
-            if (i + si) % 3 == 1:       # every third split also as isar
-                try:
-                    c = isar_case(t, sp, "inline" if i % 2 else "direct", random.Random(i))
-                except F.NotExpressible as e:
-                    key = "isar: " + e.reason.split(" ", 1)[-1][:50]
-                    skipped[key] = skipped.get(key, 0) + 1
-                    continue
-                c.update(base)
-                c["label"] = "isar:%d:%s:%d" % (i, style, len(sp["files"]))
-                cases.append(c)
+            # one of the four splits of every schema has its files named after the types they define (every 5th
+            # schema: with two included files carrying each other's name), the others are called part<N>
+            naming = "part" if si != i % len(F.SPLIT_STYLES) else ("foreign" if i % 5 == 4 else "typed")
+            if naming != "part" and len(sp["files"]) >= 2:
+                sp = rename_files(sp, t, random.Random(seed * 37 + i), naming)
+            base = {"schema": t, "values": values, "root": t[1], "style": style, "naming": naming, "absolute": (i + si) % 3 == 0}
+            emit(i, t, sp, base, (i + si) % 3 == 1)       # every third split also as isar
+        # project / library layouts: several -I directories, sub-directories of them, siblings, decoys
+        r3 = random.Random(seed * 41 + i)
+        flat = ("chain", "diamond", "random")[i % 3]
+        naming = ("part", "typed")[(i // 3) % 2]
+        sp = F.split_files(t, r3, 2 + (i // 3) % 5, flat)
+        if len(sp["files"]) >= 2:
+            if naming == "typed":
+                sp = rename_files(sp, t, r3, naming)
+            sp = arrange(sp, r3, i)
+        base = {"schema": t, "values": values, "root": t[1], "style": "layout-" + flat, "naming": naming, "absolute": i % 2 == 0}
+        emit(i, t, sp, base, i % 3 == 2)
     return schemas, cases, skipped
 
 
@@ -723,9 +1001,13 @@ def main():
             if size < seen[key][0]:
                 seen[key][0], seen[key][1] = size, make()
 
+    situations = {}
     for i, c in enumerate(cases):
         chk.count()
-        chk.seen_class((c["lang"], c["style"], len(c["files"]), bool(c["include_dirs"]), bool(c.get("absolute"))), True)
+        chk.seen_class((c["lang"], c["style"], c.get("naming", "part"), len(c["files"]), bool(c["include_dirs"]),
+                        bool(c.get("absolute"))), True)
+        for f in features(c):
+            situations[f] = situations.get(f, 0) + 1
         for kind, sig, detail, cwd, cmd in results.get(i) or []:
             total_fail += 1
             note((c["lang"], kind, sig), sum(len(v) for v in c["files"].values()),
@@ -752,11 +1034,12 @@ def main():
 
     by = {}
     for c in cases:
-        k = "%s/%s" % (c["lang"], c["style"])
+        k = "%s/%s/%s" % (c["lang"], c["style"], c.get("naming", "part"))
         by[k] = by.get(k, 0) + 1
     chk.coverage["split_cases"] = len(cases)
     chk.coverage["split_cases_by_lang_style"] = by
     chk.coverage["split_cases_standalone"] = len(todo)
+    chk.coverage["split_cases_by_situation"] = situations
     chk.coverage["screen_only_failures_not_confirmed_standalone"] = screen_only
     chk.coverage["standalone_failures_missed_by_screen"] = missed_by_screen
     chk.coverage["include_error_cases"] = len(ecs)
@@ -766,7 +1049,13 @@ def main():
     chk.coverage["distinct_failures"] = distinct
     chk.coverage["rule"] = (
         "%d valid schemas (random messages with >= 3 declarations; every 4th an exhaustive-small member pair wrapped as nested / "
-        "array / optional / union arm) x split styles chain, diamond, random, subdirs (-I and relative includes) into 2-6 files, a "
+        "array / optional / union arm) x split styles chain, diamond, random, subdirs (-I and relative includes) into 2-6 files; "
+        "per schema also one split with every file named after a type it defines (every 5th: two included files with swapped "
+        "names) and one project / library layout (main file in the root, proj/ or app/src/; the other files as sibling groups in "
+        "<library root>[/sub-directory]; includes through the library root ('proto/msg.prophy'), the group directory, or "
+        "relative paths; 2-4 -I directories in descending / shuffled / ascending command-line order, sometimes one repeated; "
+        "same-named decoy files with other constants and layouts at every place of lower precedence under the search rule "
+        "'directory of the including file, then -I in command-line order'); a "
         "third of the splits also as isar xml with <xi:include>. Per split: single-file build vs (a) main only, (b) all files on one "
         "command line in random order, (c) from a sibling working directory with relative or absolute paths, (d) file by file: "
         "model layout of every struct/union, constants and enumerators (compare_layout); generated Python imported as a "
@@ -783,11 +1072,14 @@ def main():
         print("note: flagged by the in-process screen only (not reproduced stand-alone): %s" % screen_only[:10])
     print("C16: %d split cases %s, %d decided stand-alone; %d include-error cases; %d failures, %d distinct" % (
         len(cases), by, len(todo), len(ecs), total_fail, len(distinct)))
+    for k, v in sorted(situations.items()):
+        print("    splits where %s: %d" % (k, v))
     for k, v in sorted(outcomes.items()):
         print("    include errors: %s: %d" % (k, v))
     for d in distinct:
         print("  - [%s] %s [%s]: %d cases; smallest: %s" % (d["lang"], d["kind"], d["signature"], d["cases"], d["label"]))
-    chk.assumptions += ["equivalence of the Python outputs is observed on the classes reachable from the root message and on "
+    chk.assumptions += ["an include is searched in the directory of the including file first, then in the -I directories in "
+                        "command-line order (decoy files are only put where this rule does not look first)", "equivalence of the Python outputs is observed on the classes reachable from the root message and on "
                         "module-level integer names", "the single-file reference is the concatenation of the files' "
                         "declarations in include order (for the unaugmented schema this is schema.to_prophy up to order)"]
     return chk.finish(level="exploration")
